@@ -136,7 +136,7 @@ impl Part for C07 {
     }
     fn bound(&self, cfg: &Cfg) -> String {
         if cfg.tier.thorough() {
-            "48 suites x 4 modes x 2 info shapes x 2 psk shapes, every bit (stride 1; stride 3 for P-384/P-521)".into()
+            "48 suites x 4 modes x 2 (info, psk, psk_id) shapes, every bit of every field for all KEMs".into()
         } else {
             "12 (KEM,KDF) pairs x {AES-256-GCM, ChaCha20Poly1305, export-only for X25519} x 4 modes x 1 shape; every bit for X25519/P-256, every 8th+boundary bits for P-384/P-521".into()
         }
@@ -162,7 +162,7 @@ impl Part for C07 {
                 for (info_len, psk_len, psk_id_len) in shapes {
                     tag += 1;
                     // P-384 / P-521 receivers cost milliseconds per perturbation
-                    let stride = if heavy { if t { 3 } else { 8 } } else { 1 };
+                    let stride = if heavy && !t { 8 } else { 1 };
                     v.push(Case { suite, mode, info_len, psk_len, psk_id_len, stride, tag });
                 }
             }
